@@ -45,6 +45,20 @@ if ok:
         p = subprocess.run([B + '/echsq', 'add', fn], cwd=cwd, capture_output=True, text=True, timeout=20)
         os.umask(old)
         res['submit'].append({'uid': t['uid'], 'rc': p.returncode, 'out': (p.stdout + p.stderr)[-300:]})
+    if plan.get('kill_at'):
+        # crash and restart: the daemon is killed outright after its periodic checkpoint and started again on the same spool
+        time.sleep(max(0, t0 + plan['kill_at'] - time.time()))
+        d.kill(); d.wait()
+        res['killed_at'] = time.time() - t0
+        time.sleep(max(0, t0 + plan['restart_at'] - time.time()))
+        res['files_at_restart'] = {os.path.basename(fn): open(fn, errors='replace').read()[-6000:] for fn in glob.glob('/var/spool/echse/*') + glob.glob('/var/spool/echse/.*ics')}
+        open(W + '/echsd.err', 'a').write('--- second life ---\n')
+        err2 = open(W + '/echsd.err', 'a')
+        d = subprocess.Popen([B + '/echsd', '-n', '--pidfile=' + W + '/pid'], stderr=err2, stdout=subprocess.DEVNULL)
+        for _ in range(100):
+            if 'echsd ready' in open(W + '/echsd.err').read().split('--- second life ---')[-1]: break
+            time.sleep(0.1)
+        res['restarted_at'] = time.time() - t0
     time.sleep(max(0, t0 + plan['horizon'] - time.time()))
     p = subprocess.run([B + '/echsq', 'list'], capture_output=True, text=True, timeout=20)
     res['list'] = p.stdout[-4000:]
